@@ -305,6 +305,32 @@ def _pack_formats(ctx):
                 want = ".upper()" if unsigned else ".lower()"
                 ok = t.endswith(want) and sz is not None and ("[%s]" % norm(sz)) in t
                 ctx.ob("C28.R8", site, "the format of %s is chosen by the size the type has in type_size_map and is %s" % (name, "unsigned" if unsigned else "signed"), ok, construct="format-sign:" + name, detail=t)
+    _function_scoped_state(ctx)
+
+
+def _function_scoped_state(ctx):
+    """R9: labels have function scope (C11 6.2.1p3): two functions of one translation unit may both have `out:`.
+    The code generator keeps label -> block in a dictionary on itself and is used for the whole translation unit,
+    so the dictionary has to be started afresh for every function definition."""
+    from ..sym import conjuncts
+    CG = "ppci/lang/c/codegenerator.py"
+    ctx.rule("C28.R9", "the label table of the C code generator is function scoped: gen_function_def binds a fresh, empty table unconditionally before any statement of the body is generated (a label of an earlier function would resolve to that function's closed block: AssertionError)", floor=3)
+    gl = ctx.fn(CG, "CCodeGenerator.get_label_block")
+    reg = [n for n in ast.walk(gl) if isinstance(n, ast.Assign) and isinstance(n.targets[0], ast.Subscript) and norm(n.targets[0].value).startswith("self.")]
+    ctx.need(len(reg) == 1, "get_label_block: registry store not found")
+    table = norm(reg[0].targets[0].value)
+    gf = ctx.fn(CG, "CCodeGenerator.gen_function_def")
+    site = CG + ":CCodeGenerator.gen_function_def"
+    resets = [n for n in gf.body if isinstance(n, ast.Assign) and norm(n.targets[0]) == table and norm(n.value) in ("{}", "dict()")]
+    body_calls = [c for c in ast.walk(gf) if isinstance(c, ast.Call) and norm(c.func) in ("self.gen_stmt", "self.gen_compound_statement", "self.gen_statement")]
+    ctx.need(body_calls, "gen_function_def: generation of the function body not found")
+    ok = len(resets) >= 1 and resets[0].lineno < min(c.lineno for c in body_calls)
+    ctx.ob("C28.R9", site, "`%s = {}` is a top-level statement of gen_function_def in front of the body" % table, ok, construct="label-table-per-function", detail="%d reset(s)" % len(resets))
+    other = [q for q, f in ctx.project.module(CG).defs.items() if isinstance(f, ast.FunctionDef) and q not in ("CCodeGenerator.__init__", "CCodeGenerator.gen_function_def")
+             and any(isinstance(n, ast.Assign) and norm(n.targets[0]) == table for n in ast.walk(f))]
+    ctx.ob("C28.R9", CG + ":CCodeGenerator", "nothing else rebinds the table in the middle of a function", not other, construct="no-other-reset", detail=str(other))
+    users = [q for q, f in ctx.project.module(CG).defs.items() if isinstance(f, ast.FunctionDef) and any(isinstance(c, ast.Call) and norm(c.func) == "self.get_label_block" for c in ast.walk(f))]
+    ctx.ob("C28.R9", CG + ":CCodeGenerator", "labels and gotos resolve their block through get_label_block (the one registry)", {"CCodeGenerator.gen_label", "CCodeGenerator.gen_goto"} <= set(users), construct="label-goto-use-registry", detail=str(sorted(users)))
 
 
 def _anc28(n):
